@@ -74,7 +74,7 @@ def traced_cases(ctx, n_docs, p_try, rng=None, n_edits=3):
         if term is None:
           skipped[st[:40]] += 1
         else:
-          out.append((term, copy.deepcopy(info), st, all(not ST.has_try(a) for a in snap.values())))
+          out.append((term, copy.deepcopy(info), st, all(not ST.has_try(a) for a in snap.values()), ST.coq_edges(lp)))
       done = len(loops)
       if k == n_edits:
         break
@@ -105,18 +105,21 @@ def tuple_of(a):
   return tuple(tuple_of(x) if isinstance(x, list) else x for x in a)
 
 
-CHECKS = [('check_trace', 'fun cb => check_trace (fst cb)'),
-          ('check_scratch', 'fun cb => negb (snd cb) || check_scratch (fst cb)')]
+CHECKS = [('check_trace', 'fun cb => check_trace (fst (fst cb))'),
+          ('check_scratch', 'fun cb => negb (snd (fst cb)) || check_scratch (fst (fst cb))'),
+          # the engine's dependency graph after the loop contains an edge for every Read of every evaluation of the
+          # loop, abandoned ones included (_use_node adds the edge before it brings the read node up to date)
+          ('check_edges', 'fun cb => check_edges (fst (fst cb)) (snd cb)')]
 # informational: the deterministic model of the engine's own order reproduces the recorded trace exactly.  Not an
 # obligation: the engine's row iteration in _recompute_step runs over a set that nested calls shrink (dirty_rows -=
 # cleaned), so it occasionally skips a row; such traces are still runs of the (nondeterministic) model.
-STRATEGY = ('check_strategy', 'fun cb => check_strategy (fst cb)')
+STRATEGY = ('check_strategy', 'fun cb => check_strategy (fst (fst cb))')
 
 
 def run_tie(ctx, name, cases, shard=60):
   """[(case index, failing check)]; all checks are evaluated in one coqc run per shard."""
   # plain numerals (the cases file opens Z_scope): elaboration of the literals is the dominant cost
-  terms = ['((%s : trace_case), %s)' % (c[0].replace('%Z', ''), core.boollit(c[3])) for c in cases]
+  terms = ['(((%s : trace_case), %s), %s)' % (c[0].replace('%Z', ''), core.boollit(c[3]), c[4]) for c in cases]
   res = ST.run_cases_multi(ctx, name, ['Grist.Model.Sched'], CHECKS + [STRATEGY], terms, shard=shard)
   exact = len(cases) - len(res[STRATEGY[0]])
   ctx.bump('tie:engine strategy reproduces the trace exactly', exact)
@@ -129,7 +132,7 @@ def run_tie(ctx, name, cases, shard=60):
 
 def correspond(ctx):
   cases = traced_cases(ctx, ctx.n(30, 500), p_try=0.15)
-  for term, info, st, strict in cases:
+  for term, info, st, strict, _edges in cases:
     nontrivial = bool(st.get('need') or st.get('cycle') or st.get('opp'))
     ctx.count(term, nontrivial=nontrivial, sample=info if nontrivial else None,
               kind='tie:' + ('cycle' if st.get('cycle') else 'reorder' if st.get('need') else 'plain'))
